@@ -153,7 +153,7 @@ def USpec.prog (cfg : UCfg) (draws : Nat → Int) : USpec → Prog String
       (UC.revive cfg.revivalRetries (now - scope) (now - iv) now (now + cd) (now + iv) draws).bind fun r =>
         pure (match r with | .ok n => s!"ok:{n}" | .error e => tagUErr e)
   | .addserver a => (UC.addServer zeroInfo cfg.revivalRetries a).bind fun e => pure (tagAddEnd e)
-  | .clean ret => (UC.cleanServers ret).bind fun _ => pure "ok"
+  | .clean ret => (UC.cleanServers2 ret).bind fun _ => pure "ok"
   | .cleanins ret => (UC.cleanInstances ret).bind fun _ => pure "ok"
   | .pop n oc => .call (.popMany n) fun r =>
       match r with
@@ -180,6 +180,7 @@ def parseEff (ev : String) : Option UEv :=
     | [i, e] => do let i ← i.toNat?; pure (.fault i (e == "1"))
     | _ => none
   else if ev.startsWith "c" then (ev.drop 1).toNat?.map .call
+
   else if ev.startsWith "t" then (ev.drop 1).toInt?.map .tick
   else none
 
@@ -193,11 +194,44 @@ def runInit (cfg : UCfg) (s : USys) (items : List String) : Option USys :=
     if it.startsWith "adv" then (it.drop 3).toInt?.map fun d => { s with clock := s.clock + d }
     else (parseSpec it).map fun sp => { s with abs := ((sp.prog cfg fun _ => 0).run s.abs s.clock).1 }) s
 
-/-- replay effective events; `e` (lease expiry) has no counterpart at this level -/
+def headNameOf (s : USys) (i : Nat) : Option String :=
+  match s.clients[i]? with
+  | some c => if c.live then c.prog.headName else none
+  | none => none
+
+/-- replay effective events; `e` (lease expiry) has no counterpart at this level.
+`Filter` of the cleaner is two storage commands in the model (`scan`, then `filter` = the fetch): a whole-call event
+`c<i>` on a pending scan performs both, a half-call event `h<i>` (one storage command of a call that has not
+returned) performs the scan only and is a no-op for every other call. -/
 def replay (s : USys) (effs : List String) : Option UCRun :=
   effs.foldlM (fun (acc : UCRun) ev =>
     if ev = "e" || ev = "-" || ev = "HUNG" then some acc
-    else (parseEff ev).map fun e => let (s', names) := acc.sys.stepT e; { sys := s', calls := acc.calls ++ names }) { sys := s, calls := [] }
+    else if ev.startsWith "h" then
+      match (ev.drop 1).toNat? with
+      | none => none
+      | some i =>
+        -- a lazily started client begins now; only a pending scan is performed
+        let (s0, n0) := acc.sys.stepT (.tick 0)
+        let _ := n0
+        if headNameOf s0 i == some "scan" || (match s0.clients[i]? with | some c => !c.started | none => false) then
+          -- start / perform: for a not-yet-started client the first `.call` would run its first call; restrict to scans
+          let started := match s0.clients[i]? with | some c => c.started | none => true
+          if started then
+            let (s', names) := s0.stepT (.call i)
+            some { sys := s', calls := acc.calls ++ names.filter (fun (n : String) => !n.endsWith ":scan") }
+          else none
+        else some acc
+    else (parseEff ev).map fun e =>
+      let (s', names) := acc.sys.stepT e
+      -- a whole `Filter` call: complete a scan by its fetch
+      let (s', names) := match e with
+        | .call i =>
+          if names.any (·.endsWith ":scan") then
+            if headNameOf s' i == some "filter" then let (s'', n2) := s'.stepT (.call i); (s'', names ++ n2)
+            else (s', names.map fun (n : String) => if n.endsWith ":scan" then s!"{i}:filter" else n)   -- nothing selected: the call ends after the scan
+          else (s', names)
+        | _ => (s', names)
+      { sys := s', calls := acc.calls ++ names.filter (fun (n : String) => !n.endsWith ":scan") }) { sys := s, calls := [] }
 
 def startClients (s : USys) (progs : List (Prog String)) : UCRun :=
   progs.foldl (fun (acc : UCRun) p =>
